@@ -247,6 +247,21 @@ def _key_coverage(prog: Program, col: Collector, refs: Refs, cat: Catalogue):
         for n in flattened:
             col.violation(f"{m.fq}::{norm(n)}", "the key is built by concatenating per-element pieces of different lengths: different argument lists flatten to the same key "
                           "(a request is answered with an op built from different arguments)", m.loc(n))
+        # a structured argument that is decomposed into the key must be decomposed completely: a slice is (start, stop, step)
+        for n in walk_no_nested(m.node):
+            if isinstance(n, ast.IfExp) or isinstance(n, ast.If):
+                t = n.test
+                if isinstance(t, ast.Call) and isinstance(t.func, ast.Name) and t.func.id == "isinstance" and len(t.args) == 2 \
+                        and isinstance(t.args[0], ast.Name) and norm(t.args[1]) == "slice":
+                    v = t.args[0].id
+                    body = n.body if isinstance(n, ast.IfExp) else ast.Module(body=n.body, type_ignores=[])
+                    attrs = {x.attr for x in ast.walk(body) if isinstance(x, ast.Attribute) and isinstance(x.value, ast.Name) and x.value.id == v}
+                    whole = any(isinstance(x, ast.Name) and x.id == v and not isinstance(m.module.parent.get(x), ast.Attribute) for x in ast.walk(body))
+                    if attrs and not whole:
+                        missing = {"start", "stop", "step"} - attrs
+                        col.check(not missing, f"{m.fq}::slice components in key", "a slice contributes start, stop and step to the key",
+                                  f"a slice argument contributes only {sorted(attrs)} to the key ({sorted(missing)} dropped): ops built from slices that differ "
+                                  "there are the same object", m.loc(n))
         col.check(set(params) <= used and not sliced and bool(rets), f"{m.fq}::covers args and kwargs",
                   "the key is derived from both the positional and the keyword parameters",
                   f"hash_args_kwargs ignores part of its input ({sorted(set(params) - used) or 'sliced'}): differently parametrised ops would be the same object", m.loc())
